@@ -144,6 +144,12 @@ def gen_c18(tier, R):
             rep = R.choice(reps)
             lim = R.choice([0.0, 1.0, 1.0, 2.0, 3.0, 5.0, 1.5, -1.0])
             out.append(f"(re _ {sx(p)} {s(text)} {s(h)} {s(rep)} {num(lim)})")
+        # `$0` puts every match back (C18_dollar_zero_is_identity: the model's answer is the haystack, so any other answer of the code is a disagreement)
+        if ip < n_fixed:
+            for h in hays:
+                out.append(f"(re _ {sx(p)} {s(text)} {s(h)} {s(R.choice(['$0', '${0}']))} {num(R.choice([0.0, 1.0, 2.0, 5.0]))})")
+        else:
+            out.append(f"(re _ {sx(p)} {s(text)} {s(R.choice(hays))} {s('$0')} {num(R.choice([0.0, 1.0, 3.0]))})")
     # patterns outside the modelled subset (counted repetitions, flags, classes, word boundaries) on short AND long haystacks: the four builtins against the engine used
     # directly (oracle only) - a shortcut keyed on the length of the haystack or on the first characters of the pattern must not change any answer
     xpats = ["Z{0,2}o", "Z{0}o", "a{0,}b", "a{2}", "a{1,3}?", "\\d+", "(?i)ab", "[[:alpha:]]+", "\\bab\\b", "x{0,1}y", "(a){0,2}b", "β{0,}α", "o", "q", "t{0,2}he", "Z{0,2}o|q", "(Z{0,2})o", "a{0}", "(?:ab){0,3}c",
